@@ -138,10 +138,44 @@ pub struct Seed<'a>(pub &'a Ty);
 
 struct V<'a>(&'a Ty);
 
+thread_local! {
+    /// 0 = bare types. Otherwise every type position is read THROUGH one of the crate's presentation wrappers
+    /// (their `Deserialize` impls must be transparent): strings through `LitString` (odd modes) / `FoldString`,
+    /// sequences and tuples through `FlowSeq<_>`, mappings and structs through `FlowMap<_>`, everything else through
+    /// `Commented<_>` (modes 1, 2) / `SpaceAfter<_>`.
+    pub static WRAP_MODE: std::cell::Cell<u8> = const { std::cell::Cell::new(0) };
+    static WRAP_TY: std::cell::RefCell<Vec<Ty>> = const { std::cell::RefCell::new(Vec::new()) };
+}
+/// the type a wrapper's inner `T::deserialize` call reads: the one pushed just before the wrapper was entered
+pub struct DynW(pub Val);
+impl<'de> serde::Deserialize<'de> for DynW {
+    fn deserialize<D: Deserializer<'de>>(d: D) -> Result<Self, D::Error> {
+        let ty = WRAP_TY.with(|t| t.borrow_mut().pop()).expect("WRAP_TY");
+        Ok(DynW(bare(&ty, d)?))
+    }
+}
+
 impl<'de, 'a> DeserializeSeed<'de> for Seed<'a> {
     type Value = Val;
     fn deserialize<D: Deserializer<'de>>(self, d: D) -> Result<Val, D::Error> {
+        use serde::Deserialize as _;
         let ty = self.0;
+        let mode = WRAP_MODE.with(|w| w.get());
+        if mode == 0 { return bare(ty, d); }
+        let push = || WRAP_TY.with(|t| t.borrow_mut().push(ty.clone()));
+        match ty {
+            Ty::Str if mode % 2 == 1 => serde_saphyr::LitString::deserialize(d).map(|s| Val::Str(s.0)),
+            Ty::Str => serde_saphyr::FoldString::deserialize(d).map(|s| Val::Str(s.0)),
+            Ty::Seq(_) | Ty::Tuple(_) => { push(); serde_saphyr::FlowSeq::<DynW>::deserialize(d).map(|w| w.0.0) }
+            Ty::Map(..) | Ty::Struct(..) => { push(); serde_saphyr::FlowMap::<DynW>::deserialize(d).map(|w| w.0.0) }
+            _ if mode <= 2 => { push(); serde_saphyr::Commented::<DynW>::deserialize(d).map(|w| w.0.0) }
+            _ => { push(); serde_saphyr::SpaceAfter::<DynW>::deserialize(d).map(|w| w.0.0) }
+        }
+    }
+}
+
+fn bare<'de, D: Deserializer<'de>>(ty: &Ty, d: D) -> Result<Val, D::Error> {
+    {
         match ty {
             Ty::Bool => d.deserialize_bool(V(ty)),
             Ty::Int(true, 8) => d.deserialize_i8(V(ty)),
